@@ -73,6 +73,7 @@ type Frame struct {
 	extraRequires []string
 	extraEnsures  []*Clause
 	extraModifies []string
+	atHits        map[*AtAssert]int
 	loopFrames    map[*ssa.BasicBlock][]loopFrame
 	targets       map[string][]modTarget
 }
@@ -83,7 +84,7 @@ func (e *Enc) newFrame(fn *ssa.Function, parent *Frame) *Frame {
 		out: map[*ssa.BasicBlock]*State{}, edge: map[[2]int]*State{}, derefOK: map[ssa.Value]*ssa.BasicBlock{},
 		env: map[string]*Val{}, parent: parent, phiHav: map[*ssa.Phi]string{}, invCtx: map[*ssa.BasicBlock]map[string]*Val{},
 		decr0: map[*ssa.BasicBlock]string{}, unshared: map[string]bool{}, cellMeta: map[string]*Val{}, boxed: map[string]*Val{},
-		rangeSrc: map[*ssa.Range]ssa.Value{}, seenComp: map[*ssa.Range]string{}, specVars: map[string]*Val{}}
+		rangeSrc: map[*ssa.Range]ssa.Value{}, seenComp: map[*ssa.Range]string{}, specVars: map[string]*Val{}, atHits: map[*AtAssert]int{}}
 	if parent != nil {
 		fr.depth = parent.depth + 1
 	}
@@ -541,6 +542,10 @@ func (fr *Frame) guardCheck(st *State, loc *Loc, write bool, pos token.Pos) {
 			mode = "write"
 			goal = hw
 		}
+		if !strings.HasPrefix(lockT, "(fp_") {
+			// an object whose lock pointer is nil is a private instance that no other goroutine can reach
+			goal = sOr("(= "+lockT+" 0)", goal)
+		}
 		e.oblige("guard", fmt.Sprintf("%s.%s %s under %s", g.Type, loc.Field, mode, g.Lock), st.pc, goal, nil, pos, "")
 	}
 }
@@ -551,7 +556,7 @@ func (fr *Frame) isUnshared(base string) bool {
 			return true
 		}
 	}
-	return false
+	return fr.e.localRefs[base]
 }
 
 func (fr *Frame) lockTerm(st *State, loc *Loc, g *GuardedBy) string {
